@@ -72,6 +72,13 @@ func main() {
 				usage()
 			}
 			replay = os.Args[i+1]
+			if !filepath.IsAbs(replay) {
+				base := os.Getenv("VERIF_CWD")
+				if base == "" {
+					base = verifRoot
+				}
+				replay = filepath.Join(base, replay)
+			}
 			i++
 		default:
 			usage()
@@ -148,6 +155,9 @@ func run(id string, info propInfo, tier string, seed uint64, replay string) int 
 	}
 	for _, l := range knownLines {
 		fmt.Println(l)
+	}
+	if x := os.Getenv("VERIF_EXCLUDE_EXTRA"); x != "" { // experiments only
+		exclude = append(exclude, strings.Split(x, ",")...)
 	}
 	baseEnv = append(baseEnv, "VERIF_EXCLUDE="+strings.Join(exclude, ","))
 
